@@ -65,3 +65,58 @@ Print Assumptions C10_lock_discipline.
    two acknowledgements on the wire (ids 40 44 48 80, seq_nos 1 3 4 6) ending at RRead. *)
 Example C10_example : exists s, run init ex_labels = Some s /\ rx s = RRead /\ length (wire_out (elog s)) = 4%nat.
 Proof. eexists. split; [vm_compute; reflexivity|split; reflexivity]. Qed.
+
+(* ---- the same rules over the extended system of Client/Live.v --------------------------------------
+   [run2 (init2 c) ls = Some s]: histories that also contain salt rotation (bad_server_salt, retries),
+   every message the receive loop survives since the C16 repairs, the server closing the connection
+   (LClose) and the client reconnecting, a key exchange.  [wire_out (elog (base s))] is ONE stream over
+   all connections of the session: Reconnect keeps session id and key, so the server sees the
+   continuation of the same numbering - msg_id must keep increasing and seq_no must not fall back
+   across a reconnect. *)
+From MTV Require Import Client.Live Client.LiveInv Client.LiveSeq.
+
+Theorem C10_wire_order_live : forall c ls s, run2 (init2 c) ls = Some s ->
+  let w := wire_out (elog (base s)) in
+  (forall x, In x w -> w_id x mod 4 = 0) /\
+  StronglySorted (fun newer older => w_id newer > w_id older) w /\
+  (forall x, In x w -> Z.odd (w_seq x) = is_content x) /\
+  (Z.of_nat (length w) < 1073741824 ->
+   StronglySorted (fun newer older => w_seq newer >= w_seq older) w).
+Proof.
+  intros c ls s H. destruct (InvAB_run2 _ _ _ H) as [A [B1 B2]]. cbv zeta.
+  split; [exact (a_mod_w _ A)|]. split; [exact (a_sorted _ A)|].
+  split; [exact (wseq_parity _ B2)|exact (wseq_monotone _ B2)].
+Qed.
+Print Assumptions C10_wire_order_live.
+
+(* the reconnect transition: a new connection generation; seqNo, lastMsgID and the stream written so far
+   are untouched, no key exchange, no plain frame *)
+Theorem C10_reconnect_keeps_numbering : forall s clk s', keyed s = true -> rx (base s) = RReconnect ->
+  step2 s (L1 (LStep ARx clk)) = Some s' ->
+  gen s' = S (gen s) /\ seqno (base s') = seqno (base s) /\ last_id (base s') = last_id (base s) /\
+  wire (base s') = wire (base s) /\ keyex s' = keyex s /\ plain_out s' = plain_out s.
+Proof. exact reconnect_keeps_numbering. Qed.
+Print Assumptions C10_reconnect_keeps_numbering.
+
+(* acknowledgements: ERecv is logged once per DELIVERY (a message the server repeats, or sends with a
+   lower msg_id than an earlier one, is a new delivery), so each delivery with an odd seq_no is followed by
+   its own msgs_ack.  [failed s = 0]: no frame of the history ended in an error - such a frame is
+   abandoned together with the acknowledgements of the containers around it (that is the code: readMsg
+   returns the error before the ack is sent). *)
+Theorem C10_acks_live : forall c ls s, run2 (init2 c) ls = Some s -> failed s = O -> rx (base s) = RRead ->
+  forall post pre sid seq, elog (base s) = post ++ ERecv sid seq :: pre -> Z.odd seq = true ->
+  exists w, In (ESent w) post /\ w_kind w = WAck sid.
+Proof.
+  intros c ls s H F R post pre sid seq E O. pose proof (InvD2_run _ _ _ H F) as D.
+  unfold InvD2b in D. rewrite R in D. simpl in D.
+  assert (U : unacked (elog (base s)) = []) by (destruct (unacked (elog (base s))) as [|x l]; [auto|destruct (D x); left; auto]).
+  destruct (unacked_sound _ _ U _ _ _ _ E O) as [[]|X]. exact X.
+Qed.
+Print Assumptions C10_acks_live.
+
+Theorem C10_acks_pending_live : forall c ls s o, run2 (init2 c) ls = Some s -> failed s = O ->
+  owed2 (rx (base s)) = Some o -> incl (unacked (elog (base s))) o.
+Proof.
+  intros c ls s o H F E. pose proof (InvD2_run _ _ _ H F) as D. unfold InvD2b in D. rewrite E in D. exact D.
+Qed.
+Print Assumptions C10_acks_pending_live.
